@@ -157,16 +157,17 @@ class Job:
 
 
 def make_scenario(rng):
-    sc = dict(njobs=rng.choice([1, 1, 2, 2, 3]), jobs=[], shutdown=rng.choice(["nowait", "nowait", "nowait", "wait", None]), late=rng.random() < 0.5,
+    sc = dict(njobs=rng.choice([1, 1, 2, 2, 3]), jobs=[], shutdown=rng.choice(["nowait", "nowait", "nowait", "wait", "wait+nowait", None]), late=rng.random() < 0.5,
               cancel=rng.random() < 0.25)
     for k in range(sc["njobs"]):
         kind = rng.choice(["fast", "fast", "hang", "hang", "stubborn"])
         j = dict(kind=kind, timeout=rng.choice([None, 1.0]), nchildren=rng.choice([0, 0, 1, 2]) if kind != "fast" else 0, via=rng.choice(["submit", "solve"]))
-        if sc["shutdown"] == "wait" and kind != "fast" and j["timeout"] is None:
+        if sc["shutdown"] == "wait" and kind != "fast" and j["timeout"] is None:  # (with "wait+nowait" the second request ends the hanging jobs)
             j["timeout"] = 1.0  # shutdown(wait=True) can only return if every job ends by itself or times out
         j["delay"] = rng.choice([0, 0, 0, 5, 20, 40])
         sc["jobs"].append(j)
     sc["shutdown_delay"] = rng.choice([0, 5, 10, 15, 20, 25, 30, 40, 60, 90])
+    sc["second_delay"] = rng.choice([0, 5, 20, 40])
     if any(j["kind"] != "fast" and j["timeout"] is None for j in sc["jobs"]) and sc["shutdown"] is None and not sc["cancel"]:
         sc["shutdown"] = "nowait"
     if sc["shutdown"] is None:
@@ -272,10 +273,19 @@ def run_schedule(sc, chooser_factory, workdir, res, wit):
         finally:
             st.finished = True
 
+    def shutdowner2():
+        # a second request, shutdown(wait=False), while (or after) a shutdown(wait=True) is in progress: it must still end every job
+        S.wait_until_step(sc.get("shutdown_delay", 0) + sc.get("second_delay", 10))
+        try:
+            ex.shutdown(wait=False)
+        except BaseException as e:  # noqa
+            state["shutdown2_exc"] = f"{type(e).__name__}: {e}"
+        state["shutdown2_returned"] = S.step
+
     def shutdowner():
         S.wait_until_step(sc.get("shutdown_delay", 0))
         try:
-            ex.shutdown(wait=(sc["shutdown"] == "wait"))
+            ex.shutdown(wait=(sc["shutdown"] in ("wait", "wait+nowait")))
         except BaseException as e:  # noqa
             state["shutdown_exc"] = f"{type(e).__name__}: {e}"
         state["alive_at_return"] = [(p.job, p.pid, p.kind) for p in table.procs.values() if p.alive()]
@@ -318,6 +328,8 @@ def run_schedule(sc, chooser_factory, workdir, res, wit):
         threads.append(threading.Thread(target=client, args=(k,), name=f"H:c{k}"))
     if sc["shutdown"]:
         threads.append(threading.Thread(target=shutdowner, name="H:sd"))
+    if sc["shutdown"] == "wait+nowait":
+        threads.append(threading.Thread(target=shutdowner2, name="H:sd2"))
     if sc["late"]:
         threads.append(threading.Thread(target=late, name="H:late"))
     if sc["cancel"] and sc["jobs"][0]["via"] == "submit":
@@ -370,9 +382,14 @@ def _judge(sc, S, table, jobs, state, threads, thread_errors, res, wit):
         viol("a thread of the executor died with an exception", "thread-exception:" + thread_errors[0].split(":")[0], errors=thread_errors[:3])
     if state["shutdown_exc"]:
         res["counters"]["shutdown_ended_by_exception"] += 1
-    if sc["shutdown"] == "wait" and state["shutdown_returned"] is not None and state.get("alive_at_return"):
+    if sc["shutdown"] in ("wait", "wait+nowait") and state["shutdown_returned"] is not None and state.get("alive_at_return"):
         viol("shutdown(wait=True) ended while a solver process was still running", "wait-shutdown-ended-early", alive=state["alive_at_return"], shutdown_exception=state["shutdown_exc"])
     expect_all_dead = sc["shutdown"] is not None and state["shutdown_returned"] is not None
+    if sc["shutdown"] == "wait+nowait":
+        res["features"]["double-shutdown"] += 1
+        expect_all_dead = state.get("shutdown2_returned") is not None
+        if expect_all_dead:
+            res["counters"]["second_shutdown_requests_returned"] += 1
     if expect_all_dead and survivors:
         viol("a process is still running after shutdown() returned and the system quiesced", "survivor-after-shutdown:" + ",".join(sorted({k for _, _, k in survivors})), survivors=survivors,
              jobs=[dict(k=j.k, accepted=j.accepted, call=j.call_step, outcome=str(j.outcome)[:80]) for j in jobs], shutdown_returned=state["shutdown_returned"])
